@@ -304,10 +304,16 @@ class FnTerms:
             return self.operand(rv["op"], b, pos)
         if k == "repeat":
             return ("repeat", self.operand(rv["op"], b, pos), rv["n"])
-        if k == "ref":
-            return ("ref", bool(rv["mut"]), self.place(rv["place"], b, pos), place_key(rv["place"]))
-        if k == "rawptr":
-            return ("ref", "raw", self.place(rv["place"], b, pos), place_key(rv["place"]))
+        if k in ("ref", "rawptr"):
+            pl = rv["place"]
+            key = place_key(pl)
+            # a reborrow `&mut *r` (or `&(*r).f`) keeps pointing into the object r was borrowed from
+            if pl["proj"] and pl["proj"][0]["k"] == "deref":
+                base = self.local_at(pl["local"], b, pos)
+                if base[0] == "ref" and isinstance(base[3], str) and base[3]:
+                    key = base[3] + "".join(".%s" % (e.get("name", e.get("i", e["k"]))) for e in pl["proj"][1:])
+            mut = bool(rv["mut"]) if k == "ref" else "raw"
+            return ("ref", mut, self.place(pl, b, pos), key)
         if k == "tls_ref":
             return ("tls", rv["path"])
         if k == "cast":
@@ -581,3 +587,16 @@ def fn_terms(facts, path):
     if key not in _ft_cache:
         _ft_cache[key] = FnTerms(facts, path)
     return _ft_cache[key]
+
+
+def strip_all(t):
+    """strip_site plus removal of borrow place keys: for comparing computations across functions"""
+    if not isinstance(t, tuple):
+        return t
+    if t and t[0] == "call":
+        return ("call", t[1], tuple(strip_all(a) for a in t[2]))
+    if t and t[0] == "ref":
+        return ("ref", t[1], strip_all(t[2]))
+    if t and t[0] == "const":
+        return t[:3]
+    return tuple(strip_all(x) for x in t)
